@@ -504,6 +504,16 @@ struct Extractor : public RecursiveASTVisitor<Extractor> {
       }
       return;
     }
+    if (auto* ME = dyn_cast<MemberExpr>(S)) {
+      // `p->m` evaluated here: a dereference of p at exactly this CFG position
+      if (ME->isArrow()) {
+        json::Object o = base("arrow");
+        o["e"] = desc(ME->getBase(), 1);
+        o["m"] = ME->getMemberDecl()->getNameAsString();
+        ev.push_back(std::move(o));
+      }
+      return;
+    }
     if (auto* AS = dyn_cast<ArraySubscriptExpr>(S)) {
       json::Object o = base("idx");
       o["b"] = desc(AS->getBase(), 1);
